@@ -145,6 +145,7 @@ type Exec struct {
 	schedOn     bool
 	schedBudget int
 	schedDev    int
+	schedMax    int
 	schedTrace  []schedEv
 }
 
